@@ -162,23 +162,9 @@ def check(an: Analysis) -> None:
         [f"{SCOPE}.__aexit__"],
     )
     _must_attempt(an, ob, f_aexit, {"task group exit": G_EXIT, "metrics exit": M_EXIT, "state exit": S_EXIT})
-    g = an.cfg(f_aexit)
-    dn = call_nodes(an, g, D_EXIT)
-    if not dn:
-        ob.fail(f_aexit, None, "ScopeContext.__aexit__ never calls Disposables.__aexit__")
-    else:
-        for n in dn:
-            ob.inst(f_aexit, n.ast, "disposables exit")
-
-        def skip(a, b, lab):
-            return a.kind == "test" and none_edge(a.ast, "_disposables") == lab
-
-        w = g.must_pass(lambda n: n in dn, raising=strict, skip_edge=skip)
-        if w is not None:
-            ob.fail(f_aexit, dn[0].ast, "a path with disposables present leaves __aexit__ without attempting Disposables.__aexit__", CFG.show_path(w))
+    disposables_exit_attempted(an, ob)
 
     # ------------------------------------------------------------------ C02.4 rollback in __aenter__
-    f_aenter = prog.fn(f"{SCOPE}.__aenter__")
     ob = an.ob(
         "C02.4",
         "K1 suspension",
@@ -186,32 +172,17 @@ def check(an: Analysis) -> None:
         "attempts TaskGroupContext.__aexit__ first (API_FACT 12: __aexit__ is not called when __aenter__ raises)",
         [f"{SCOPE}.__aenter__"],
     )
-    g = an.cfg(f_aenter)
-    enters = call_nodes(an, g, G_ENTER)
-    if not enters:
-        ob.fail(f_aenter, None, "ScopeContext.__aenter__ never enters the task group context")
-    else:
-        gexits = call_nodes(an, g, G_EXIT)
-        for en in enters:
-            ob.inst(f_aenter, en.ast, "group enter")
-            # the await node that consumes the coroutine created by this call
-            aw = [n for n in g.nodes if n.kind == "await" and isinstance(n.ast, ast.Await) and n.ast.value is en.ast]
-            starts = [t for a in (aw or [en]) for t, lab in a.succ if lab != "exc"]
-            w = g.search(
-                starts,
-                lambda n: n.kind == "exit-raise",
-                skip_node=lambda n: n in gexits,
-                skip_edge=CFG.no_exc_from(anything),
-                include_start=False,
-            )
-            # a start node may itself raise straight to RAISE
-            if w is None:
-                for s in starts:
-                    if anything(s) and any(t.kind == "exit-raise" for t, lab in s.succ if lab == "exc") and s not in gexits:
-                        w = [s, g.rse]
-            if w is not None:
-                culprit = next((n for n in reversed(w) if n.kind not in ("exit-raise", "finally", "with-exit")), w[0])
-                ob.fail(f_aenter, culprit.ast or culprit.stmt, "failure after the task group was entered leaves __aenter__ without exiting the task group", CFG.show_path(w))
+    enter_rollback(an, ob, G_EXIT, "exiting the task group")
+
+    # ------------------------------------------------------------------ C02.7 task-group errors never replace the body's exception
+    ob = an.ob(
+        "C02.7",
+        "K4",
+        "TaskGroupContext.__aexit__ lets nothing raised by asyncio.TaskGroup.__aexit__ escape except a re-raised CancelledError: an (Base)ExceptionGroup "
+        "of child failures / GeneratorExit must not replace the exception the body raised (it reaches the caller as the same object)",
+        ["context.tasks.TaskGroupContext.__aexit__"],
+    )
+    group_errors_silenced(an, ob)
 
     # ------------------------------------------------------------------ C02.5 exits never suppress
     ob = an.ob(
@@ -252,6 +223,77 @@ def check(an: Analysis) -> None:
                     a = arg_for(c, i, cp[i] if i < len(cp) else None)
                     if not is_name(a, own[i]):
                         ob.fail(f, c, f"cleanup receives {stmt_text(a) if a is not None else 'nothing'} instead of {own[i]} for parameter {cp[i] if i < len(cp) else i}")
+
+
+
+def enter_rollback(an: Analysis, ob, must_call: str, what: str) -> None:
+    """From the normal successors of the awaited task-group enter in ScopeContext.__aenter__, every
+    path to RAISE (raising = awaits, user code, iteration) passes a call of `must_call`."""
+    f_aenter = an.prog.fn(f"{SCOPE}.__aenter__")
+    g = an.cfg(f_aenter)
+    enters = call_nodes(an, g, G_ENTER)
+    if not enters:
+        ob.fail(f_aenter, None, "ScopeContext.__aenter__ never enters the task group context")
+        return
+    required = call_nodes(an, g, must_call)
+    for en in enters:
+        ob.inst(f_aenter, en.ast, "group enter")
+        aw = [n for n in g.nodes if n.kind == "await" and isinstance(n.ast, ast.Await) and n.ast.value is en.ast]
+        starts = [t for a in (aw or [en]) for t, lab in a.succ if lab not in ("exc", "reraise")]
+        w = g.search(starts, lambda n: n.kind == "exit-raise", skip_node=lambda n: n in required, skip_edge=CFG.no_exc_from(anything), include_start=False)
+        if w is None:
+            for s_ in starts:
+                if anything(s_) and any(t.kind == "exit-raise" for t, lab in s_.succ if lab == "exc") and s_ not in required:
+                    w = [s_, g.rse]
+        if w is not None:
+            culprit = next((n for n in reversed(w) if n.kind not in ("exit-raise", "finally", "with-exit", "reraise")), w[0])
+            ob.fail(f_aenter, culprit.ast or culprit.stmt, f"a failure or cancellation after the task group was entered leaves __aenter__ without {what}", CFG.show_path(w))
+
+
+def group_errors_silenced(an: Analysis, ob) -> None:
+    f = an.prog.fn("context.tasks.TaskGroupContext.__aexit__")
+    g = an.cfg(f)
+    aws = [n for n in g.nodes if n.kind == "await" and isinstance(n.ast.value, ast.Call) and an.callee(f, n.ast.value) == "asyncio.TaskGroup.__aexit__"]  # type: ignore[union-attr]
+    if not aws:
+        ob.fail(f, None, "the asyncio.TaskGroup exit is not awaited")
+        return
+    from ..kinds import catches_cancellation, classify_handler
+
+    for aw in aws:
+        ob.inst(f, aw.ast)
+        through = [t for t, lab in aw.succ if lab == "exc" and t.kind != "handler"]
+        if through:
+            hs = [t.ast for t, lab in aw.succ if lab == "exc" and t.kind == "handler"]
+            ob.fail(
+                f,
+                hs[-1] if hs else aw.ast,
+                "errors raised by TaskGroup.__aexit__ that are not Exception (a BaseExceptionGroup of child failures, the group wrapping GeneratorExit on aclose) escape and replace the body's own exception",
+                CFG.show_path([aw, through[0]]),
+            )
+        for t, lab in aw.succ:
+            if lab == "exc" and t.kind == "handler" and not catches_cancellation(g, t.ast):  # type: ignore[arg-type]
+                for kind, node, path in classify_handler(g, t.ast):  # type: ignore[arg-type]
+                    if kind != "swallow":
+                        ob.fail(f, t.ast, f"the silencing handler {kind}s instead of completing normally", CFG.show_path(path))
+
+
+def disposables_exit_attempted(an: Analysis, ob) -> None:
+    """Disposables.__aexit__ is attempted on every path of ScopeContext.__aexit__ on which disposables are present."""
+    f_aexit = an.prog.fn(f"{SCOPE}.__aexit__")
+    g = an.cfg(f_aexit)
+    dn = call_nodes(an, g, D_EXIT)
+    if not dn:
+        ob.fail(f_aexit, None, "ScopeContext.__aexit__ never calls Disposables.__aexit__")
+        return
+    for n in dn:
+        ob.inst(f_aexit, n.ast, "disposables exit")
+
+    def skip(a, b, lab):
+        return a.kind == "test" and none_edge(a.ast, "_disposables") == lab
+
+    w = g.must_pass(lambda n: n in dn, raising=strict, skip_edge=skip)
+    if w is not None:
+        ob.fail(f_aexit, dn[0].ast, "a path with disposables present leaves __aexit__ without attempting Disposables.__aexit__", CFG.show_path(w))
 
 
 def _must_attempt(an: Analysis, ob, f: FunctionInfo, wanted: dict[str, str]) -> None:
